@@ -85,17 +85,24 @@ def text_of(v):
     if isinstance(v, int):
         return str(v)
     if isinstance(v, float):
+        if v != v or abs(v) == float('inf'):
+            raise NoOpinion('text form of a non-finite number')
         if v == int(v) and abs(v) < 1e15:
             return str(int(v))
-        t = repr(v)
-        if 'e' in t or len(t.replace('-', '').replace('.', '').lstrip('0')) > 15:
-            raise NoOpinion('text form of a float with >15 digits / exponent')
+        if not 1e-9 <= abs(v) < 1e15:
+            raise NoOpinion('text form of a number written with an exponent')
+        # 15 significant digits of the number the double stands for, written plainly (0.1+0.2 is "0.3", 1/3 "0.333333333333333")
+        d = decimal.Context(prec=15, rounding=decimal.ROUND_HALF_EVEN, traps=[]).create_decimal(Decimal(v))
+        t = format(d, 'f')
+        if '.' in t:
+            t = t.rstrip('0').rstrip('.')
         return t
     if isinstance(v, str):
         return v
     if isinstance(v, dt.datetime):
         if v.hour or v.minute or v.second or v.microsecond:
-            raise NoOpinion('text form of a date with a time part')
+            # the serial number with the time of day as its fraction
+            return text_of((v - dt.datetime(1899, 12, 30)).total_seconds() / 86400)
         return str((v - dt.datetime(1899, 12, 30)).days)      # joined to a text a date is its serial number
     raise NoOpinion(f'text form of {type(v).__name__}')
 
